@@ -321,6 +321,8 @@ class Inhabit:
         if fuel <= 0:
             return ("null",)
         k = t[0]
+        if k == "paren":
+            return self.ty(t[1], fuel)
         if k == "any":
             return rand_scalar(rng, self.cbor)
         if k == "major":
